@@ -31,13 +31,10 @@ type replayFile struct {
 
 func parseClient(text string) client {
 	p := parsePrefix(text)
-	if !strings.Contains(text, ":") {
-		p.fam = 4
-	}
-	c := client{fam: p.fam, addr: p.net, plen: p.plen, text: text, full: p.plen == famBits(p.fam)}
 	if strings.Contains(text, ":") && p.fam == 4 { // cannot happen for generated clients
 		vlib.Infra("replay: client %s is an IPv4-mapped IPv6 client", text)
 	}
+	c := client{fam: p.fam, addr: p.net, plen: p.plen, text: text, full: p.plen == famBits(p.fam)}
 	c.ip16 = wireECSAddress(c.fam, c.addr, c.plen)
 	return c
 }
